@@ -12,6 +12,7 @@ from __future__ import annotations
 import math
 
 import numpy as np
+from .common import quiet as _quiet
 
 from .common import fbits, unfbits, v3, vlist, ilist, allclose
 from .molfiles import make_molecule, random_tree, neighbours
@@ -270,7 +271,7 @@ def run_impl(ctx, case):
     if late is not None:
         ctx.count("topology:bond-added-after-first-use")
         try:
-            with np.errstate(all="ignore"):
+            with _quiet():
                 throwaway_t = make_molecule(ctx.scratch, "REF", ["A0"], [list(refpos[0])], [])
                 ExchangeMap(ref, throwaway_t, 1.0)(ref.copy())
         except Exception:   # noqa: BLE001
@@ -288,7 +289,7 @@ def run_impl(ctx, case):
     tgt_before = tgt.atoms_positions.copy()
     np.random.seed(case.get("seed", 0))
     ident = case.get("ident", "fresh")
-    with RandRecorder() as rec, np.errstate(all="ignore"):
+    with RandRecorder() as rec, _quiet():
         a0 = ref.copy()          # the construction configuration, as an independent object
         emap = ExchangeMap(ref, tgt, case["s"])
         nb = len(rec.draws)
